@@ -42,6 +42,10 @@ def make_cases(tier, seed):
         add(text, "rich", exp)
     for i in range(n_scalar):
         add(geom.scalar_program(seed * 1013 + i), "scalar", None)
+    for i in range(5 if quick else 40):
+        # far-apart lamps on two producers: relay chains of different networks next to each other
+        text, exp = geom.far_program(seed * 1017 + i)
+        add(text, "far", exp, n=3 if quick else 6)
     for name, text, exp, props in geom.HAND_PROGRAMS:
         add(text, "hand:" + name, exp, n=2 if quick else 10)
     if not quick:
@@ -128,7 +132,7 @@ def run(tier, seed, t0):
             fid = geom.classify_compile_error(c, base.get(c.text, False))
             if fid:
                 v, d = "known:" + fid, {"error": (c.msg or "")[:300]}
-            elif not c.cfg[0]:
+            elif not c.cfg[0] or not base.get(c.text, False):
                 # no blueprint under the default pole-less build either: the program is not accepted by this
                 # tree (the crash itself belongs to the properties that own that construct)
                 v, d = "not-accepted", {"error": (c.msg or "")[:300]}
@@ -159,6 +163,8 @@ def run(tier, seed, t0):
         elif v == "violation":
             rep.obligations += 1
             payload = dict(c.describe())
+            if c.bpj is not None and geom.entity_total(c.bpj) <= 400:
+                payload["blueprint"] = c.bpj
             payload.update({"detail": d, "generator_seed": seed,
                             "broken_obligation": "valid_layout (Factorio/Geometry.v) on the emitted blueprint / relay partition"})
             rep.violation(payload, d.get("kind") not in ("validator-and-mirror-disagree", "export"))
